@@ -236,4 +236,11 @@ def run(tier):
     has = any(ck == inc.key for _, _, ck, _ in fcs.calls())
     rep.check(has, "flow-start-increases-level", "fetch_flow_collection_start",
               "fetch_flow_collection_start no longer goes through increase_flow_level", site=fcs.span)
+    # the flow level is only moved by the fetchers of the bracket tokens: one up per '[' / '{', one down per ']' / '}' (C03 pairs the tokens
+    # with these calls); any other caller - a reset at a BOM, at a document marker, in an error path - lets nesting escape the bound
+    S_ = SCANNER + "::"
+    for name, owner in (("increase_flow_level", "fetch_flow_collection_start"), ("decrease_flow_level", "fetch_flow_collection_end")):
+        callers = sorted({k for k, f in F.fns.items() for bb, t, ck, fr in f.calls() if ck == S_ + name})
+        rep.check(callers == [S_ + owner], "flow-level-callers", name, "%s is called from %s: the flow nesting bound is tied to one call per bracket in %s" % (
+            name, [short(c) for c in callers], owner), detail=[short(c) for c in callers])
     return rep
